@@ -596,6 +596,312 @@ def run_quantile_cuts_stream(ctx, classify):
         ctx.count('quantile-cuts/classes-compared')
 
 
+# ---- theme stream: memory layouts, more dtypes, irregular Dask chunks, call sequences, degenerate shapes ------------
+def _eqnan(a, b):
+    return all((x == y) or (math.isnan(x) and math.isnan(y)) for ra, rb in zip(a, b) for x, y in zip(ra, rb)) and \
+        len(a) == len(b) and all(len(x) == len(y) for x, y in zip(a, b))
+
+
+def _layouts(a):
+    """the same logical 2-D array in several memory layouts"""
+    yield 'C', np.ascontiguousarray(a)
+    yield 'F', np.asfortranarray(a)
+    yield 'transposed-view', np.ascontiguousarray(a.T).T
+    big = np.zeros((a.shape[0] * 2, a.shape[1] * 3), dtype=a.dtype)
+    big[::2, ::3] = a
+    yield 'strided-view', big[::2, ::3]
+    yield 'reversed-view', np.ascontiguousarray(a[::-1, ::-1])[::-1, ::-1]
+    ro = np.array(a, copy=True)
+    ro.setflags(write=False)
+    yield 'read-only', ro
+
+
+def _call(classify, fn, agg, kw):
+    import contextlib
+    import io
+    with contextlib.redirect_stdout(io.StringIO()), contextlib.redirect_stderr(io.StringIO()):
+        return getattr(classify, fn)(agg, **kw)
+
+
+def _binary_exact_oracle(ctx, a, vals, out, case):
+    data = to_floats(a)
+    for r, row in enumerate(data):
+        for c, v in enumerate(row):
+            if math.isnan(v):
+                listed = False
+            elif math.isinf(v):
+                listed = any((not math.isnan(x)) and x == v for x in vals)
+            else:
+                listed = any(math.isfinite(x) and Fraction(x) == Fraction(v) for x in vals)
+            exp = 1.0 if listed else (0.0 if math.isfinite(v) else float('nan'))
+            o = out[r][c]
+            if not (o == exp or (math.isnan(o) and math.isnan(exp))):
+                ctx.violation('oracle', 'binary: cell %r (dtype %s) with listed values %r got %r, expected %r (1 exactly on the listed values)' % (
+                    v, case['dtype'], vals, o, exp), dict(case, cell=[r, c], got=o, expected=exp))
+                return False
+    return True
+
+
+def _arr_of(case):
+    a = np.array(case['data'], dtype='float64')
+    return a.astype(case['dtype']) if case['dtype'].startswith('f') else np.nan_to_num(a).astype(case['dtype'])
+
+
+def _kw_of(case):
+    fn = case['fn']
+    if fn == 'reclassify':
+        return dict(bins=case['bins'], new_values=case['new_values'])
+    if fn == 'binary':
+        return dict(values=case['values'])
+    return dict(k=case['k'])
+
+
+def _oracle_on(ctx, classify, fn, a, kw, out, cap, case):
+    if fn == 'reclassify':
+        check_reclass_oracle(ctx, to_floats(a), kw['bins'], kw['new_values'], out, case, 'reclassify')
+    elif fn == 'binary':
+        _binary_exact_oracle(ctx, a, kw['values'], out, case)
+    else:
+        bins_c = [float(b) for b in cap.calls[0][0].tolist()] if cap is not None and len(cap.calls) == 1 else None
+        if fn == 'natural_breaks':
+            check_datadriven_oracle(ctx, 'natural_breaks_sampled', a, kw['k'], out, None, case)
+        else:
+            check_datadriven_oracle(ctx, fn, a, kw['k'], out, bins_c, case)
+
+
+def theme_layout_case(ctx, classify, case):
+    fn, dtype = case['fn'], case['dtype']
+    a, kw = _arr_of(case), _kw_of(case)
+    ref = None
+    for name, arr in _layouts(a):
+        before = np.array(arr, copy=True)
+        try:
+            with BinCapture(classify) as cap:
+                res = _call(classify, fn, xr.DataArray(arr, dims=['y', 'x']), kw)
+            out = to_floats(res.data)
+        except Exception as e:
+            ctx.violation('oracle', '%s on a %s %s raster raised %s: %s' % (fn, name, dtype, type(e).__name__, str(e)[:200]), dict(case, layout=name))
+            return
+        if not _eqnan(to_floats(arr), to_floats(before)):
+            ctx.violation('oracle', '%s modified its %s input raster' % (fn, name), dict(case, layout=name))
+            return
+        if ref is None:
+            ref = out
+            _oracle_on(ctx, classify, fn, a, kw, out, cap, case)
+        elif not _eqnan(out, ref):
+            ctx.violation('oracle', '%s: the result on a %s raster %s differs from the result on the C-contiguous raster %s '
+                          '(same logical values, dtype %s)' % (fn, name, out, ref, dtype), dict(case, layout=name, got=out, c_result=ref))
+            return
+
+
+def theme_binary_case(ctx, classify, case):
+    import dask.array as da
+    a = _arr_of(case)
+    form = case['kind'].split('/')[1]
+    vals = case['values']
+    v = list(vals) if form == 'list' else tuple(vals) if form == 'tuple' else \
+        np.array(vals, dtype='float64') if form == 'ndarray-f64' else np.array(vals, dtype=case['dtype'])
+    for backend in ('numpy', 'dask'):
+        try:
+            arr = a.copy() if backend == 'numpy' else da.from_array(a.copy(), chunks=(1, 2))
+            out = to_floats(np.asarray(classify.binary(xr.DataArray(arr, dims=['y', 'x']), v).data))
+        except Exception as e:
+            ctx.violation('oracle', 'binary(%s, values as %s) on %s raised %s: %s' % (backend, form, case['dtype'], type(e).__name__, str(e)[:200]), case)
+            continue
+        _binary_exact_oracle(ctx, a, vals, out, dict(case, backend=backend))
+
+
+def theme_irregular_case(ctx, classify, case):
+    import dask.array as da
+    fn = case['fn']
+    a, kw = _arr_of(case), _kw_of(case)
+    chunks = tuple(tuple(c) for c in case['dask_chunks'])
+    try:
+        o_np = to_floats(_call(classify, fn, xr.DataArray(a.copy(), dims=['y', 'x']), kw).data)
+        lazy = _call(classify, fn, xr.DataArray(da.from_array(a.copy(), chunks=chunks), dims=['y', 'x']), kw)
+        is_lazy = isinstance(lazy.data, da.Array)
+        o_da = to_floats(np.asarray(lazy.data))
+    except Exception as e:
+        ctx.violation('oracle', '%s on a Dask raster with chunks %r raised %s: %s' % (fn, chunks, type(e).__name__, str(e)[:200]), case)
+        return
+    if not _eqnan(o_np, o_da) or not is_lazy:
+        ctx.violation('oracle', '%s: Dask-backed result (chunks %r) %s differs from the NumPy-backed result %s%s' % (
+            fn, chunks, o_da, o_np, '' if is_lazy else ' (and is not lazy)'), dict(case, numpy=o_np, dask=o_da))
+
+
+def theme_sequence_case(ctx, classify, case):
+    a = np.array(case['data'], dtype='float64')
+    rows, cols = a.shape
+    attrs = {'res': (0.5, 2.0), 'tag': 'keep'}
+    agg = xr.DataArray(a, dims=['y', 'x'], coords={'y': np.arange(rows)[::-1] * 2.0, 'x': np.arange(cols) * 0.5}, attrs=dict(attrs))
+    bins, nv = case['bins'], case['new_values']
+    clean = not np.isnan(a).any() and not np.isinf(a).any()
+    filled = agg.where(np.isfinite(agg), 1.0)
+    steps = [('reclassify', agg, dict(bins=bins, new_values=nv)),
+             ('reclassify', agg[::2, ::2], dict(bins=bins, new_values=nv)),
+             ('reclassify', agg.astype('int32') if clean else agg.copy(), dict(bins=bins, new_values=nv)),
+             ('binary', agg, dict(values=[bins[0], 3.0])),
+             ('binary', agg.astype('float32'), dict(values=[bins[0], 3.0])),
+             ('reclassify', agg, dict(bins=bins, new_values=nv)),
+             ('equal_interval', filled, dict(k=3)),
+             ('equal_interval', filled[1:, 1:], dict(k=3)),
+             ('quantile', agg, dict(k=3)), ('quantile', agg[:, ::-1], dict(k=3))]
+    steps = [steps[j] for j in case['order']]
+    for pos, (fn, g, kw) in enumerate(steps):
+        arr0 = np.array(g.data, copy=True)
+        fin = arr0[np.isfinite(arr0)] if arr0.dtype.kind == 'f' else arr0.ravel()
+        if fn in ('equal_interval', 'quantile') and (fin.size == 0 or (fn == 'equal_interval' and float(fin.min()) == float(fin.max()))):
+            continue
+        attrs0 = dict(g.attrs)
+        try:
+            got = _call(classify, fn, g, kw)
+            fresh = _call(classify, fn, xr.DataArray(np.array(arr0, copy=True), dims=['y', 'x']), kw)
+        except Exception as e:
+            ctx.violation('oracle', 'sequence step %d (%s) raised %s: %s' % (pos, fn, type(e).__name__, str(e)[:200]), dict(case, position=pos))
+            return
+        if not _eqnan(to_floats(got.data), to_floats(fresh.data)):
+            ctx.violation('oracle', 'step %d of a call sequence: %s on a derived raster gives %s, the same call on a freshly built raster with the '
+                          'same values gives %s' % (pos, fn, to_floats(got.data), to_floats(fresh.data)), dict(case, position=pos))
+            return
+        if not _eqnan(to_floats(g.data), to_floats(arr0)) or dict(g.attrs) != attrs0:
+            ctx.violation('oracle', 'step %d of a call sequence: %s changed its input (values or attrs)' % (pos, fn), dict(case, position=pos))
+            return
+        if got.shape != g.shape or list(got.dims) != list(g.dims) or not all(np.array_equal(got[d].values, g[d].values) for d in g.dims):
+            ctx.violation('oracle', 'step %d of a call sequence: %s does not keep the shape/dims/coords of its input' % (pos, fn), dict(case, position=pos))
+            return
+
+
+def theme_degenerate_case(ctx, classify, case):
+    fn = case['fn']
+    a, kw = _arr_of(case), _kw_of(case)
+    if case['dtype'].startswith('f'):
+        a = np.array(case['data'], dtype='float64').astype(case['dtype'])
+    try:
+        with BinCapture(classify) as cap:
+            out = to_floats(_call(classify, fn, xr.DataArray(a.copy(), dims=['y', 'x']), kw).data)
+    except Exception as e:
+        ctx.violation('oracle', '%s on a %dx%d %s raster (%s) raised %s: %s' % (fn, a.shape[0], a.shape[1], case['dtype'], case['kind'],
+                                                                           type(e).__name__, str(e)[:200]), case)
+        return
+    _oracle_on(ctx, classify, fn, a, kw, out, cap, case)
+
+
+def theme_case(ctx, classify, case):
+    kind = case.get('kind', '')
+    if kind == 'layouts':
+        theme_layout_case(ctx, classify, case)
+    elif kind.startswith('binary-unrepresentable/'):
+        theme_binary_case(ctx, classify, case)
+    elif kind == 'dask-irregular':
+        theme_irregular_case(ctx, classify, case)
+    elif kind == 'sequence':
+        theme_sequence_case(ctx, classify, case)
+    elif kind.startswith('degenerate/'):
+        theme_degenerate_case(ctx, classify, case)
+    else:
+        return False
+    return True
+
+
+def gen_theme_cases(ctx):
+    rng = ctx.rng
+    quick = ctx.quick()
+    MORE_DT = ['int8', 'int16', 'uint16', 'uint32', 'float32', 'float64', 'int64', 'uint8']
+
+    def params(fn, kmax=5):
+        if fn == 'reclassify':
+            bins = sorted(set(float(rng.randint(-3, 9)) for _ in range(rng.randint(1, 5))))
+            return dict(bins=bins, new_values=[float(rng.randint(0, 30)) for _ in bins])
+        if fn == 'binary':
+            return dict(values=[float(rng.randint(0, 6)) for _ in range(rng.randint(1, 3))])
+        return dict(k=rng.randint(2, kmax))
+
+    def usable(fn, a, k=None):
+        if fn in ('reclassify', 'binary'):
+            return True
+        fin = a[np.isfinite(a)] if a.dtype.kind == 'f' else a.ravel()
+        if fin.size == 0:
+            return False
+        if fn in ('equal_interval', 'natural_breaks') and float(fin.min()) == float(fin.max()):
+            return False            # degenerate range: outside the property's premise
+        if fn == 'natural_breaks' and len(set(fin.tolist())) < k:
+            return False
+        return True
+    # 1. layouts x dtypes x classifiers
+    for i in range(20 if quick else 400):
+        fn = ['reclassify', 'binary', 'quantile', 'equal_interval', 'natural_breaks'][i % 5]
+        dtype = MORE_DT[(i // 5) % len(MORE_DT)]
+        a = rand_raster(rng, dtype, rng.randint(2, 5), rng.randint(2, 5), ['small', 'wide', 'frac'][i % 3])
+        if dtype.startswith('u') or dtype == 'int8':
+            a = (np.abs(a.astype('int64')) % 120).astype(dtype)
+        kw = params(fn)
+        if usable(fn, a, kw.get('k')):
+            yield dict(fn=fn, data=to_floats(a), dtype=dtype, kind='layouts', **kw)
+    # 2. binary with listed values the raster dtype cannot hold, given as list / tuple / float64 array / array of the raster's dtype
+    specs = [('int32', [1, 2, 3, 16777216], [1.5, 2.0]), ('int64', [0, 1, 2, 2 ** 53], [0.5, 2.5, float(2 ** 53)]),
+             ('int16', [-1, 0, 1, 7], [0.999999, 7.0000001]), ('uint8', [0, 1, 255, 3], [255.5, -1.0, 256.0]),
+             ('float32', [16777216.0, 0.5, 1.0, 0.100000001490116], [16777217.0, 0.5000000001, 0.1]),
+             ('float32', [1.0, 2.0, 3.0, float('nan')], [1.0000000001, 2.0]),
+             ('float64', [0.1, 0.30000000000000004, 1e300, float('inf')], [0.1, 0.3, float('inf')])]
+    for dtype, cells, vals in specs:
+        for form in ('list', 'tuple', 'ndarray-f64', 'ndarray-own'):
+            eff = vals
+            if form == 'ndarray-own':
+                if not dtype.startswith('f'):
+                    continue       # fractional values in an integer array are truncated by the CALLER, not by binary
+                eff = [float(x) for x in np.array(vals, dtype=dtype).tolist()]
+            a = np.array([cells], dtype='float64').astype(dtype) if dtype.startswith('f') else np.array([cells], dtype=dtype)
+            yield dict(fn='binary', values=[float(x) for x in eff], data=to_floats(a), dtype=dtype, kind='binary-unrepresentable/' + form)
+
+    def comp(n):
+        parts = []
+        while n > 0:
+            c = rng.randint(1, min(3, n))
+            parts.append(c)
+            n -= c
+        return parts
+    # 3. Dask with irregular chunk tuples
+    for i in range(12 if quick else 200):
+        fn = ['reclassify', 'binary', 'equal_interval'][i % 3]
+        dtype = ['float32', 'float64', 'int32', 'uint8', 'int64'][i % 5]
+        rows, cols = rng.randint(2, 7), rng.randint(2, 7)
+        a = rand_raster(rng, dtype, rows, cols, ['small', 'nonf32', 'frac'][i % 3])
+        kw = params(fn, 10)
+        chunks = [comp(rows), comp(cols)]
+        if usable(fn, a, kw.get('k')):
+            yield dict(fn=fn, data=to_floats(a), dtype=dtype, dask_chunks=chunks, kind='dask-irregular', **kw)
+    # 4. call sequences
+    for i in range(6 if quick else 60):
+        a = rand_raster(rng, 'float64', rng.randint(3, 6), rng.randint(3, 6), 'small')
+        bins = sorted(set(float(rng.randint(-1, 7)) for _ in range(rng.randint(2, 4))))
+        order = list(range(10))
+        rng.shuffle(order)
+        yield dict(fn='sequence', data=to_floats(a), dtype='float64', bins=bins, new_values=[float(rng.randint(0, 30)) for _ in bins],
+                   order=order, kind='sequence')
+    # 5. degenerate shapes / parameters
+    for (rows, cols) in [(1, 1), (1, 4), (4, 1), (2, 2)]:
+        for dtype in ('float64', 'int32', 'float32'):
+            base = rand_raster(rng, dtype, rows, cols, 'small')
+            variants = [('random', base), ('all-equal', np.full((rows, cols), 3, dtype=dtype))]
+            if dtype.startswith('f') and rows * cols > 1:
+                one = np.full((rows, cols), np.nan, dtype=dtype)
+                one[0, 0] = 2.5
+                variants.append(('single-finite', one))
+            for vname, a in variants:
+                for fn, kw in (('reclassify', dict(bins=[1.0, 3.0, 5.0], new_values=[10.0, float('nan'), 30.0])),
+                               ('binary', dict(values=[3.0])), ('quantile', dict(k=rows * cols + 3)), ('quantile', dict(k=2)),
+                               ('natural_breaks', dict(k=2)), ('equal_interval', dict(k=4))):
+                    if usable(fn, a, kw.get('k')):
+                        yield dict(fn=fn, data=to_floats(a), dtype=dtype, kind='degenerate/' + vname, **kw)
+
+
+def run_theme_stream(ctx, classify):
+    for case in gen_theme_cases(ctx):
+        ctx.case(case)
+        ctx.count('theme/%s/%s' % (case['kind'].split('/')[0], case['fn']))
+        theme_case(ctx, classify, case)
+
+
 def run(ctx):
     classify = _impl()
     pending = []
@@ -913,6 +1219,8 @@ def run(ctx):
     run_jenks_imp_stream(ctx, classify)
     # ---- quantile's percentile cuts vs the exact model (Quantile.v); rng draws after every earlier stream ----
     run_quantile_cuts_stream(ctx, classify)
+    # ---- themes: layouts, more dtypes, irregular chunks, call sequences, degenerate shapes (rng draws last) ----
+    run_theme_stream(ctx, classify)
 
 
 def search(ctx):
@@ -931,6 +1239,11 @@ def search(ctx):
 def replay_case(ctx, case):
     classify = _impl()
     fn = case['fn']
+    if case.get('kind') and (case['kind'] in ('layouts', 'dask-irregular', 'sequence') or
+                             case['kind'].startswith(('binary-unrepresentable/', 'degenerate/'))):
+        ctx.case(case)
+        theme_case(ctx, classify, case)
+        return
     if fn == 'jenks_matrices':
         ctx.case(case)
         try:
